@@ -6,6 +6,7 @@ import KrillModel.Ca.Objects
 import KrillModel.Ca.ObjLemmas
 import KrillModel.Ca.RoaLemmas
 import KrillModel.Ca.ObjLemmasSync
+import KrillModel.Ca.ClassLemmas
 namespace KM.Sys.Rp
 open KM.Ca.Pub
 
@@ -17,8 +18,21 @@ theorem payloads_eq_infos (r : Roas) : r.payloads = (infos r).flatMap (·.auths)
 
 /-- The published objects of the key set are exactly the ROA objects (`objects_mirror`; the driver
 checks it on the implementation after every op). -/
-def Mirror (r : Roas) (s : KeyObjectSet) : Prop :=
-  ∀ e : Nat × PubObj, e ∈ s.published ↔ ∃ i ∈ infos r, e = (i.obj.name, ⟨i.obj.serial, i.obj.expires, i.obj.hash⟩)
+def Mirror (nm : Naming) (r : Roas) (s : KeyObjectSet) : Prop :=
+  ∀ e : Nat × PubObj, e ∈ s.published ↔ e ∈ roaView nm r
+
+theorem mirror_info {nm : Naming} {r : Roas} {s : KeyObjectSet} (h : Mirror nm r s) {e : Nat × PubObj}
+    (he : e ∈ s.published) : ∃ i ∈ infos r, e.2 = pubOf i.obj := by
+  rcases (mem_roaView nm r e).mp ((h e).mp he) with ⟨x, hx, rfl⟩ | ⟨x, hx, rfl⟩
+  · exact ⟨x.2, by simp only [infos, List.mem_append, List.mem_map]; exact Or.inl ⟨x, hx, rfl⟩, rfl⟩
+  · exact ⟨x.2, by simp only [infos, List.mem_append, List.mem_map]; exact Or.inr ⟨x, hx, rfl⟩, rfl⟩
+
+theorem info_published {nm : Naming} {r : Roas} {s : KeyObjectSet} (h : Mirror nm r s) {i : RoaInfo}
+    (hi : i ∈ infos r) : ∃ n, (n, pubOf i.obj) ∈ s.published := by
+  simp only [infos, List.mem_append, List.mem_map] at hi
+  rcases hi with ⟨x, hx, rfl⟩ | ⟨x, hx, rfl⟩
+  · exact ⟨nm.nameS x.1, (h _).mpr ((mem_roaView nm r _).mpr (Or.inl ⟨x, hx, rfl⟩))⟩
+  · exact ⟨nm.nameA x.1, (h _).mpr ((mem_roaView nm r _).mpr (Or.inr ⟨x, hx, rfl⟩))⟩
 
 /-- The catalog decodes the set's manifest, CRL and ROAs to what the model says they contain. -/
 structure Decodes (cat : Catalog) (key : Nat) (r : Roas) (s : KeyObjectSet) : Prop where
@@ -28,10 +42,10 @@ structure Decodes (cat : Catalog) (key : Nat) (r : Roas) (s : KeyObjectSet) : Pr
   roa : ∀ i ∈ infos r, cat i.obj.hash = some (.signed ⟨key, i.obj.serial, i.obj.expires, .roa i.auths⟩)
 
 /-- What the relying party needs of the state. -/
-structure Ready (ca : Cert) (r : Roas) (s : KeyObjectSet) (files : Files) (now : Nat) : Prop where
+structure Ready (nm : Naming) (ca : Cert) (r : Roas) (s : KeyObjectSet) (files : Files) (now : Nat) : Prop where
   wf : r.WF
   good : GoodSet s
-  mirror : Mirror r s
+  mirror : Mirror nm r s
   mftName : s.mftName = ca.mftName
   crlName : s.crlName = ca.crlName
   namesDiffer : ca.mftName ≠ ca.crlName
@@ -62,8 +76,8 @@ theorem entries_eq (s : KeyObjectSet) (hg : GoodSet s) (hfresh : s.crlName ∉ k
   rw [hk]
   simp [hfresh]
 
-theorem pointHead_ready (cat : Catalog) (ca : Cert) (r : Roas) (s : KeyObjectSet) (files : Files) (now : Nat)
-    (hd : Decodes cat ca.subject r s) (h : Ready ca r s files now) :
+theorem pointHead_ready (nm : Naming) (cat : Catalog) (ca : Cert) (r : Roas) (s : KeyObjectSet) (files : Files) (now : Nat)
+    (hd : Decodes cat ca.subject r s) (h : Ready nm ca r s files now) :
     pointHead cat files ca now =
       some (⟨ca.subject, s.manifest.number, s.manifest.thisUpdate, s.manifest.nextUpdate, s.manifest.entries⟩,
             ⟨ca.subject, s.crl.number, s.crl.thisUpdate, s.crl.nextUpdate, s.crl.revoked⟩) := by
@@ -77,8 +91,8 @@ theorem pointHead_ready (cat : Catalog) (ca : Cert) (r : Roas) (s : KeyObjectSet
   simp only [pointHead, hm, hd.mft, hc, hd.crl, hna.2.2.1, hna.2.2.2.1, hna.2.2.2.2.1, hna.2.2.2.2.2, w1, w2,
     and_self, if_true]
 
-theorem point_valid (cat : Catalog) (ca : Cert) (r : Roas) (s : KeyObjectSet) (files : Files) (now : Nat)
-    (hd : Decodes cat ca.subject r s) (h : Ready ca r s files now) :
+theorem point_valid (nm : Naming) (cat : Catalog) (ca : Cert) (r : Roas) (s : KeyObjectSet) (files : Files) (now : Nat)
+    (hd : Decodes cat ca.subject r s) (h : Ready nm ca r s files now) :
     PointValid cat files ca now = true := by
   have hent := entries_eq s h.good (by rw [h.crlName]; exact h.crlFresh)
   have hother : ∀ f, f ∈ otherFiles files ca ↔
@@ -96,7 +110,7 @@ theorem point_valid (cat : Catalog) (ca : Cert) (r : Roas) (s : KeyObjectSet) (f
         obtain ⟨e, he, rfl⟩ := List.mem_map.mp h1
         intro heq
         exact h.mftFresh (heq ▸ mem_keys_of_mem he)
-  simp only [PointValid, pointHead_ready cat ca r s files now hd h, Bool.and_eq_true, List.all_eq_true,
+  simp only [PointValid, pointHead_ready nm cat ca r s files now hd h, Bool.and_eq_true, List.all_eq_true,
     List.contains_iff_mem]
   refine ⟨⟨?_, ?_⟩, ?_⟩
   · intro e he
@@ -115,7 +129,7 @@ theorem point_valid (cat : Catalog) (ca : Cert) (r : Roas) (s : KeyObjectSet) (f
     rcases List.mem_cons.mp he with h1 | h1
     · subst h1; simp [entryOk, h.crlName]
     · obtain ⟨pe, hpe, rfl⟩ := List.mem_map.mp h1
-      obtain ⟨i, hi, hie⟩ := (h.mirror pe).mp hpe
+      obtain ⟨i, hi, hie⟩ := mirror_info h.mirror hpe
       have hne : pe.1 ≠ ca.crlName := fun heq => h.crlFresh (heq ▸ mem_keys_of_mem hpe)
       have hcov : (i.auths.all ca.resources.coversPfx) = true := by
         rw [List.all_eq_true]
@@ -125,11 +139,11 @@ theorem point_valid (cat : Catalog) (ca : Cert) (r : Roas) (s : KeyObjectSet) (f
         cases ha : i.auths with
         | nil => exact absurd ha (infos_nonempty_auths r h.wf i hi)
         | cons _ _ => rfl
-      subst hie
-      simp [entryOk, hne, hd.roa i hi, h.unrevoked i hi, h.unexpired i hi, contentOk, hcov, hnonempty]
+      have hh : pe.2.hash = i.obj.hash := by rw [hie]; rfl
+      simp [entryOk, hne, hh, hd.roa i hi, h.unrevoked i hi, h.unexpired i hi, contentOk, hcov, hnonempty]
 
-theorem point_vrps (cat : Catalog) (ca : Cert) (r : Roas) (s : KeyObjectSet) (files : Files) (now : Nat)
-    (hd : Decodes cat ca.subject r s) (h : Ready ca r s files now) :
+theorem point_vrps (nm : Naming) (cat : Catalog) (ca : Cert) (r : Roas) (s : KeyObjectSet) (files : Files) (now : Nat)
+    (hd : Decodes cat ca.subject r s) (h : Ready nm ca r s files now) :
     ∀ p, p ∈ pointVrps cat files ca ↔ p ∈ r.payloads := by
   intro p
   have hother : ∀ f, f ∈ otherFiles files ca ↔
@@ -154,16 +168,16 @@ theorem point_vrps (cat : Catalog) (ca : Cert) (r : Roas) (s : KeyObjectSet) (fi
     rcases (hother f).mp hf with h1 | h1
     · subst h1; simp [hd.crl] at hp
     · obtain ⟨pe, hpe, rfl⟩ := List.mem_map.mp h1
-      obtain ⟨i, hi, hie⟩ := (h.mirror pe).mp hpe
-      subst hie
-      simp only [hd.roa i hi] at hp
+      obtain ⟨i, hi, hie⟩ := mirror_info h.mirror hpe
+      have hh : pe.2.hash = i.obj.hash := by rw [hie]; rfl
+      simp only [hh, hd.roa i hi] at hp
       exact ⟨i, hi, hp⟩
   · rintro ⟨i, hi, hp⟩
-    refine ⟨(i.obj.name, i.obj.hash), ?_, by simp only [hd.roa i hi]; exact hp⟩
+    obtain ⟨n, hn⟩ := info_published h.mirror hi
+    refine ⟨(n, i.obj.hash), ?_, by simp only [hd.roa i hi]; exact hp⟩
     rw [hother]
     right
-    exact List.mem_map.mpr ⟨(i.obj.name, ⟨i.obj.serial, i.obj.expires, i.obj.hash⟩),
-      (h.mirror _).mpr ⟨i, hi, rfl⟩, rfl⟩
+    exact List.mem_map.mpr ⟨(n, pubOf i.obj), hn, rfl⟩
 
 /-! ### The files after a repository synchronisation -/
 
